@@ -844,10 +844,10 @@ func c04r13(p *model.Prog, r *report.Result, rule string) {
 		fn := p.Method("pkg/rtmp", "ServerSession", name)
 		model.EachInstrDeep(fn, 2, func(d model.DeepInstr) {
 			call, ok := d.In.(*ssa.Call)
-			if !ok || !call.Call.IsInvoke() {
+			if !ok {
 				return
 			}
-			m := call.Call.Method.Name()
+			m := invokedMethodName(d)
 			if m != "OnNewRtmpPubSession" && m != "OnNewRtmpSubSession" {
 				return
 			}
